@@ -1076,7 +1076,7 @@ def zoo_stream(ctx, reps):
 
 # ---------------------------------------------------------------------------
 
-def _regenerate(ctx):
+def regenerate(ctx):
     from extract import ufunc_deriv
     changed = ufunc_deriv.regenerate()
     return [('extract(ufunc_ops.derivative_factory -> Gen/UfuncDeriv.lean)', True,
